@@ -97,7 +97,7 @@ func genVersionsCase(r *rand.Rand, cfg Cfg, op string, big bool) Case {
 			continue
 		}
 		ld := "load"
-		if (op == "difflinks" || op == "diff") && r.Intn(3) == 0 {
+		if (op == "difflinks" || op == "diff" || op == "diffloads") && r.Intn(3) == 0 {
 			ld = "isoload" // each version on a store of its own that holds only its nodes
 		}
 		ops = append(ops, fmt.Sprintf("%s %d 1", ld, a), fmt.Sprintf("%s %d 2", ld, b))
